@@ -213,7 +213,7 @@ def harness_build(variant="plain", extra_units=None):
     flags = flags + ["-I" + gdir]
     srcs, hdrs = repo_sources()
     hsrcs = sorted(glob.glob(os.path.join(HARNESS, "*.cpp")))
-    hhdrs = sorted(glob.glob(os.path.join(HARNESS, "*.hpp")) + glob.glob(os.path.join(HARNESS, "*.h")) +
+    hhdrs = sorted(glob.glob(os.path.join(HARNESS, "*.hpp")) + glob.glob(os.path.join(HARNESS, "*.h")) + glob.glob(os.path.join(HARNESS, "*.inc")) +
                    glob.glob(os.path.join(gdir, "*.h")))
     hdr_key = _sha(*[_read(h) for h in hdrs + hhdrs], " ".join(flags))
     objdir = os.path.join(BUILD, "obj")
